@@ -53,11 +53,13 @@ func Preset(prop string, adversarial bool, r *scen.Rand) *Params {
 		p.ReplayP = 0.6
 	case "C02":
 		p.Alpha = Alpha{Plain: 5, Framing: 5, Structured: 2}
-		p.Envs = readOnlyEnv
-		p.UpdateOpt = 0.2
+		// mostly environments in which nothing may be updated; with UPDATE_SNAPS=true the calls
+		// through a Config with Update(false) are still read-only, next to neighbours that rewrite
+		p.Envs = append(append([]map[string]string{}, readOnlyEnv...), envUpd, envVendor)
+		p.UpdateOpt = 0.35
 		p.EditKinds = []string{"value"}
 		p.EditValueP = 0.6
-		p.TasksP = 0.15 // a mismatch must not pass silently under concurrency either
+		p.TasksP = 0.25 // a mismatch must not pass silently under concurrency either
 		p.ReplayP = 0.3
 	case "C03":
 		p.NonTestNames = true
